@@ -11,7 +11,8 @@ RULE = ("grid cases: files of 56..400 bytes around segment boundaries, 1<=k<=N<=
         "offset-table entry, UEB, each share-hash-chain entry number/value, each block-hash-tree node, each crypttext-hash-tree node, "
         "each block, unused regions), truncation at any length, shares swapped between share numbers, between two files and between two "
         "encodings of the same key, servers whose read answers change (fault plan on the n-th read), each read in full or by range "
-        "through a recording consumer, once or twice on the same node; non-trivial = the scenario damaged at least one share that the "
+        "through a recording consumer, once or twice on the same node; files uploaded with a large max segment size (blocks of 262145..600000 "
+        "bytes, k = 1..3) with one byte flipped at positions over the whole block incl. every 256 KiB boundary and the last bytes; non-trivial = the scenario damaged at least one share that the "
         "download touched; distinct = distinct (file parameters, scenario, damage)")
 META = {
     "title": "Immutable downloads never return wrong bytes",
@@ -422,18 +423,23 @@ def judge(ctx, data, offset, size, status, err, chunks, case, what):
     """The property itself: exact bytes or an error, and a correct prefix before an error."""
     want = data[offset:] if size is None else data[offset:offset + size]
     got = b"".join(chunks)
+
+    def clip(b, at):
+        # long reads: keep the replay record small, show the bytes around the first difference
+        return b.hex() if len(b) <= 600 else {"bytes_from": max(0, at - 32), "hex": b[max(0, at - 32):at + 32].hex(), "length": len(b)}
     if status == "ok":
         if got != want:
+            at = next((i for i in range(min(len(got), len(want))) if got[i] != want[i]), min(len(got), len(want)))
             ctx.oracle_fail("download-returned-wrong-bytes:" + what,
-                            "read(%d, %r) completed with %d bytes that are not the uploaded bytes (first difference at %d)"
-                            % (offset, size, len(got), next((i for i in range(min(len(got), len(want))) if got[i] != want[i]), min(len(got), len(want)))),
-                            case=case, expected=want.hex(), observed=got.hex())
+                            "read(%d, %r) completed with %d bytes that are not the uploaded bytes (first difference at %d)" % (offset, size, len(got), at),
+                            case=case, expected=clip(want, at), observed=clip(got, at))
             return False
     else:
         if want[:len(got)] != got:
             ctx.oracle_fail("bytes-before-error-not-a-prefix:" + what,
                             "read(%d, %r) ended with %s after delivering %d bytes that are not a prefix of the requested range" % (offset, size, err or status, len(got)),
-                            case=case, expected=want[:len(got)].hex(), observed=got.hex())
+                            case=case, expected=clip(want[:len(got)], next((i for i in range(len(got)) if got[i] != want[i:i + 1][:1] or i >= len(want)), 0)),
+                            observed=clip(got, next((i for i in range(len(got)) if i >= len(want) or got[i] != want[i]), 0)))
             return False
     return True
 
@@ -899,14 +905,85 @@ def adversarial(ctx):
         adversarial_case(ctx, i)
 
 
+# ---- blocks larger than the pieces in which hashes are computed ----------------------------------------------------
+PIECE = 256 * 1024
+
+
+def large_block_case(ctx, i):
+    """A file uploaded with a large max_segment_size, so that one block is longer than 256 KiB (k = 1: block =
+    segment), exactly k shares left, one byte flipped in one share's block at positions sampled over the WHOLE
+    block: first byte, middle, around every 256 KiB boundary, the last bytes."""
+    from core import grid as G
+    r = ctx.rng("large", i)
+    k, n, size, mss = [(1, 3, 300000, 1 << 20), (3, 5, 900000, 1 << 20), (1, 2, 262145, 1 << 19), (2, 4, 600002, 1 << 21),
+                       (1, 2, 700000, 300000), (1, 3, 524288 + 777, 1 << 20), (2, 3, 2 * 262144, 1 << 20), (3, 4, 800001, 400000)][i % 8]
+    if i >= 8:
+        size += r.randrange(0, 5000)
+    data = r.randbytes(size)
+    seed = r.getrandbits(30)
+    base = {"i": i, "large": True, "k": k, "n": n, "size": size, "max_segment_size": mss, "seed": seed}
+    results = []
+    with G.Grid(num_servers=n, k=k, n=n, happy=1, max_segment_size=mss, seed=seed, timeout=60) as g:
+        cap = g.run(g.upload(data, convergence=b"c02L"))
+        shares = g.find_shares(cap)
+        keep = sorted(r.sample(shares, k), key=lambda s: s.shnum) if r.random() < 0.5 else [s for s in shares if s.shnum < k]
+        for s in shares:
+            if s not in keep:
+                g.delete_share(s)
+        status, err, chunks = read_through(g, fresh_node(g, cap), 0, None, timeout=60)
+        judge(ctx, data, 0, None, status, err, chunks, dict(base, damage="none"), "large-block")
+        if status != "ok":
+            ctx.oracle_fail("large-block-intact-read-failed", "undamaged %d-of-%d file of %d bytes (max segment size %d) could not be read: %s" % (k, n, size, mss, err or status), case=base)
+        target = r.choice(keep)
+        raw = g.read_share(target)
+        head, pay, leases = split_container(raw)
+        ver, fs, offs = parse_header(pay)
+        segsize = div_ceil(min(size, mss), k) * k
+        sz = sizes(size, k, segsize)
+        positions = []
+        for j in range(sz["num_segments"]):
+            bl = sz["tail_block_size"] if j == sz["num_segments"] - 1 else sz["block_size"]
+            start = j * sz["block_size"]
+            cand = [0, 1, bl // 2, bl - 1, bl - 2, bl - 1 - r.randrange(min(bl, 4096)), r.randrange(bl)]
+            for b in range(PIECE, bl + 1, PIECE):
+                cand += [b - 1, b, b + 1, b + r.randrange(1, max(2, min(PIECE, bl - b)))]
+            if bl > PIECE:
+                cand += [PIECE * (bl // PIECE) + r.randrange(max(1, bl % PIECE)) for _ in range(3)]      # inside the last, partial piece
+            positions += [(j, start + c, c) for c in cand if 0 <= c < bl]
+        r.shuffle(positions)
+        # the very end of a block and the inside of its last partial piece are always among the sampled positions
+        tails = [p_ for p_ in positions if p_[2] >= PIECE * ((sz["tail_block_size"] if p_[0] == sz["num_segments"] - 1 else sz["block_size"]) // PIECE)]
+        positions = tails[:3] + [p_ for p_ in positions if p_ not in tails[:3]]
+        for (j, pos, inblock) in positions[:ctx.n(8, 40)]:
+            b = bytearray(pay)
+            b[offs["data"] + pos] ^= r.choice([1, 0x80, 0xff])
+            g.write_share(target, join_container(head, bytes(b), leases))
+            off, ln = r.choice([(0, None), (0, None), (max(0, size - 5000), None), (0, size), (size // 2, None)])
+            status, err, chunks = read_through(g, fresh_node(g, cap), off, ln, timeout=60)
+            case = dict(base, kept_shares=[s.shnum for s in keep], damaged_share=target.shnum, segment=j, block_offset=inblock, read=[off, ln])
+            judge(ctx, data, off, ln, status, err, chunks, case, "large-block")
+            results.append(err or status)
+            ctx.case((i, pos, off, ln), kind="large-block:%s" % ("ok" if status == "ok" else "refused"))
+        g.write_share(target, raw)
+    return {"outcomes": results}
+
+
+def large_blocks(ctx):
+    for i in range(ctx.n(6, 32)):
+        large_block_case(ctx, i)
+
+
 def run(ctx):
     classification(ctx)
     adversarial(ctx)
+    large_blocks(ctx)
 
 
 def replay(ctx, record):
     """Re-run the single recorded case (its random choices derive from (seed, property, case index))."""
     case = record.get("case") or {}
+    if case.get("large"):
+        return large_block_case(ctx, case["i"])
     if "scenario" in case and "i" in case:
         return adversarial_case(ctx, case["i"])
     if "file" in case:
